@@ -1,1 +1,96 @@
-import Soa.Model.Exec
+import Soa.Props.C01
+/-!
+# C02 — field arrays always stay in lockstep
+
+After any operation with any (valid or invalid) argument, on any shape: every leaf array
+(recursively through nested containers) has one common length, the tree keeps its shape,
+position `i` of every array holds a field of one logical element — every row of the new
+container is a whole row that was in the container or was moved in — and a call that
+panics on its argument leaves the container exactly as it was.
+-/
+namespace Soa.C02
+open Soa
+
+variable {c : Cols} {n : Nat}
+
+/-- one step: lockstep and shape are preserved -/
+theorem lockstep_step (dr : Bool) (op : C01.Op) (hc : c.lock n) (hw : op.wf c) :
+    (∃ m, (C01.mstep dr c op).st.lock m) ∧ c.same (C01.mstep dr c op).st :=
+  ⟨(C01.step_refines dr op hc hw).lock, (C01.step_refines dr op hc hw).same⟩
+
+/-- a call that panics because of an invalid argument leaves the container as it was -/
+theorem atomic_step (dr : Bool) (op : C01.Op) (hc : c.lock n) (hw : op.wf c)
+    (hp : (C01.mstep dr c op).panicked = true) : (C01.mstep dr c op).st = c :=
+  (C01.step_refines dr op hc hw).atomic hp
+
+/-- all histories, invalid arguments included -/
+theorem lockstep_history (dr : Bool) (ops : List C01.Op) (hc : c.lock n) (hw : ∀ op ∈ ops, op.wf c) :
+    (∃ m, (C01.mrun dr c ops).2.lock m) ∧ c.same (C01.mrun dr c ops).2 :=
+  ⟨(C01.history dr ops c n hc hw).2.2.1, (C01.history dr ops c n hc hw).2.2.2⟩
+
+/-- free theorem: a natural list operation invents no value — everything in its results
+    comes from its inputs -/
+theorem PolyOp.mem_of_run (op : PolyOp) {α : Type} (xs as : List α) (r : List α × List α)
+    (h : op.run xs as = some r) : ∀ y ∈ r.1 ++ r.2, y ∈ xs ++ as := by
+  let S := { x : α // x ∈ xs ++ as }
+  let xs' : List S := xs.attach.map (fun x => ⟨x.1, List.mem_append_left _ x.2⟩)
+  let as' : List S := as.attach.map (fun x => ⟨x.1, List.mem_append_right _ x.2⟩)
+  have hx : xs'.map Subtype.val = xs := by simp [xs', List.map_map, Function.comp_def]
+  have ha : as'.map Subtype.val = as := by simp [as', List.map_map, Function.comp_def]
+  have hn := op.nat (Subtype.val : S → α) xs' as'
+  rw [hx, ha, h] at hn
+  cases hr : op.run xs' as' with
+  | none => simp [hr] at hn
+  | some r' =>
+    simp only [hr, Option.map_some, Option.some.injEq] at hn
+    intro y hy
+    rw [hn] at hy
+    simp only [List.mem_append, List.mem_map] at hy
+    rcases hy with ⟨s, _, rfl⟩ | ⟨s, _, rfl⟩ <;> exact s.2
+
+/-- coherence of every per-field std call: each row of the result (of the container and of
+    what is handed back) is a whole row of the container or of the argument -/
+theorem rows_coherent (op : PolyOp) (a : Cols) (k : Nat) (hc : c.lock n) (ha : a.lock k) (hs : c.same a)
+    (hp : (c.apply2 op a).panicked = false) :
+    ∀ row ∈ (c.apply2 op a).st.rows ++ (c.apply2 op a).out.rows, row ∈ c.rows ++ a.rows := by
+  cases perField op c a n k hc ha hs with
+  | ok s hrun _ _ hst hout _ _ _ _ =>
+    rw [hst, hout]
+    exact PolyOp.mem_of_run op _ _ s hrun
+  | fail _ _ hp' _ _ => rw [hp] at hp'; cases hp'
+
+/-- the swap loop and the pop loop only move whole rows: after `retain` every row was there before -/
+theorem retain_coherent (dr : Bool) (keep : Nat → Bool) (hc : c.lock n) :
+    ∀ row ∈ (Model.retain dr c keep none (fun _ _ => none)).st.rows, row ∈ c.rows := by
+  have h := (C01.retain dr keep hc).1.st
+  rw [h, (Spec.retain_none dr keep c.rows).2.1]
+  intro row hr
+  exact filterIdx_subset keep 0 c.rows row hr
+where filterIdx_subset (keep : Nat → Bool) : ∀ (i : Nat) (rs : List Elem) (row : Elem),
+    row ∈ RetainIdx.filterIdx keep i rs → row ∈ rs
+  | _, [], _, h => by simp [RetainIdx.filterIdx] at h
+  | i, r :: rs, row, h => by
+    simp only [RetainIdx.filterIdx] at h
+    split at h
+    · simp only [List.mem_cons] at h ⊢
+      rcases h with h | h
+      · exact Or.inl h
+      · exact Or.inr (filterIdx_subset keep (i + 1) rs row h)
+    · exact List.mem_cons_of_mem _ (filterIdx_subset keep (i + 1) rs row h)
+
+theorem truncate_coherent (dr : Bool) (k : Nat) (hc : c.lock n) :
+    ∀ row ∈ (Model.truncate dr c k).st.rows, row ∈ c.rows := by
+  rw [(C01.truncate dr k hc).st]
+  intro row hr
+  exact List.mem_of_mem_take hr
+
+/-! non-vacuity: an invalid `insert` on the example container panics and changes nothing -/
+example : (Model.insert false C01.exC 5 C01.exE).panicked = true ∧
+    (Model.insert false C01.exC 5 C01.exE).st = C01.exC := by
+  have h := C01.insert false 5 (c := C01.exC) (e := C01.exE) (n := 2) (by simp [C01.exC]) (by simp [C01.exE])
+    (by simp [C01.exC, C01.exE, Cols.same, Cols.same.sameL])
+  have hp : (Model.insert false C01.exC 5 C01.exE).panicked = true := by
+    simp [Model.insert, firstLen_lock C01.exC 2 (by simp [C01.exC])]
+  exact ⟨hp, h.atomic hp⟩
+
+end Soa.C02
